@@ -208,6 +208,11 @@ class Body:
         self._dom = None
         self._defs = None
         self._reach_cache = {}
+        # `args` bindings introduced by format_args!/panic! expansions are temporaries, not user variables
+        for l in [l for l, n in self.names.items() if n == "args"]:
+            ds = self.defs().get(l, ())
+            if ds and all(("m:" in (self.blocks[bi]["s"][si]["at"][1] if si is not None else self.blocks[bi]["t"]["at"][1])) for (bi, si, rv, lhs) in ds):
+                del self.names[l]
 
     def __repr__(self):
         return "<Body %s>" % self.id
@@ -652,7 +657,7 @@ class Body:
                     while a[0] in ("ref", "deref"):
                         a = a[1]
                     return ("await", a, bi)
-            return ("call", callee_name(t), args, bi)
+            return ("call", callee_name(t), args, bi, t.get("ga", ""))
         r = rv["r"]
         if r == "use":
             return self.operand_term(rv["o"], depth, expand_vars, seen)
@@ -928,7 +933,7 @@ def result_edges(body, call_block):
     `?` desugaring Try::branch), else None."""
     def is_this_call(t):
         t = strip_refs(t)
-        return t[0] in ("call", "await") and t[-1] == call_block or (t[0] == "await" and inner_call_block(t) == call_block)
+        return (t[0] == "call" and t[3] == call_block) or (t[0] == "await" and (t[2] == call_block or inner_call_block(t) == call_block))
 
     def inner_call_block(t):
         u = t[1]
@@ -1106,8 +1111,10 @@ def elem_collection(body, var_term):
             if it[0] == "var":
                 for (bi2, si2, rv2, lhs2) in body.defs().get(it[2], ()):
                     t2 = body.def_term(bi2, si2, rv2, 0)
+                    while t2[0] in ("ref", "deref"):
+                        t2 = t2[1]
                     if t2[0] == "call" and t2[2]:
-                        c = t2[2][0]
+                        c = t2 if ITER_ADAPTOR.search(t2[1]) else t2[2][0]
                         for _ in range(8):
                             while c[0] in ("ref", "deref"):
                                 c = c[1]
